@@ -1,6 +1,8 @@
 import OptiModel.Model.Aberr
+import OptiModel.Model.Presc
 import OptiModel.Props.C04
 import OptiModel.Proofs.Aberr
+import OptiModel.Proofs.AberrExt
 import OptiModel.Proofs.NumReal
 import Mathlib.Tactic.FieldSimp
 import Mathlib.Tactic.Ring
@@ -752,5 +754,519 @@ theorem terms_vanish_when_invariant_zero (P : Pre ℝ) (k : ℕ) (h : P.inv = 0)
   refine ⟨t1 k, t2 k, t3 k, t4 k, t5 k, ?_⟩
   rw [(sums_are_sums P).1]
   simp only [Pre.TSC, Pre.CC, Pre.TAC, Pre.TPC, Pre.DC, hz _ t1, hz _ t2, hz _ t3, hz _ t4, hz _ t5, mul_zero]
+
+
+/-! ## round-7 additions: index-matched surfaces, mirrors (F-C08-2), zero invariant (F-C08-3), image space,
+aperture/field scaling, orientation behind mirrors, edit-then-re-evaluate -/
+
+
+/-! ### index-matched (cemented) surfaces and mirrors as coded -/
+
+/-- **index_matched_contributes_zero**: a surface between two media of the same index at the
+primary wavelength (`_n[k] = _n[k-1]`: a cemented index-matched interface, or — with `optic.n()`
+as the tree reads it — a mirror) has spherical, coma, astigmatism and Petzval terms exactly 0, for
+every curvature, every ray and every value of the Lagrange invariant (also 0); the distortion term
+keeps only `h'·½Δ(ū²)` and the colour terms only see the dispersion step `δn_{k-1} − δn_k`. -/
+theorem index_matched_contributes_zero (P : Pre ℝ) (k : ℕ) (hm : nth P.n k = nth P.n (k - 1)) :
+    P.tscTerm k = 0 ∧ P.ccTerm k = 0 ∧ P.tacTerm k = 0 ∧ P.tpcTerm k = 0 ∧
+    P.dcTerm k = P.hp * (1 / 2 * (nth P.ub k * nth P.ub k - nth P.ub (k - 1) * nth P.ub (k - 1))) ∧
+    (nth P.n k ≠ 0 →
+      P.tachcTerm_spec k = -(nth P.ya k) * P.i k / (P.nL * P.uL) * (nth P.dn (k - 1) - nth P.dn k) ∧
+      P.tchcTerm_spec k = -(nth P.ya k) * P.ip k / (P.nL * P.uL) * (nth P.dn (k - 1) - nth P.dn k)) := by
+  obtain ⟨hB, hBp⟩ := B_matched P k hm
+  refine ⟨?_, ?_, ?_, ?_, ?_, ?_⟩
+  · unfold Pre.tscTerm; rw [hB]; num_real; ring
+  · unfold Pre.ccTerm; rw [hB]; num_real; ring
+  · unfold Pre.tacTerm; rw [hB]; num_real; ring
+  · unfold Pre.tpcTerm; rw [hm]; num_real; simp
+  · unfold Pre.dcTerm; rw [hBp, half_eq]; simp only [Model.sq]; num_real; ring
+  · intro hn
+    simp only [Pre.tachcTerm_spec, Pre.tchcTerm_spec, Pre.dnFac]
+    rw [← hm]
+    num_real
+    rw [div_self hn, one_mul]
+    exact ⟨rfl, rfl⟩
+
+example : ∃ P : Pre ℝ, nth P.n 1 = nth P.n (1 - 1) ∧ nth P.n 1 ≠ 0 ∧ nth P.C 1 ≠ 0 :=
+  ⟨⟨1, [3/2, 3/2, 1], 3, [0, 1/50, 0], [5, 5, 4], [0, 0, -1/10], [0, 0, 1], [1/10, 1/10, 1/10], [1/100, 1/50, 0]⟩,
+    by simp [nth], by simp [nth], by simp [nth]⟩
+
+/-- with the chief-ray refraction invariant an index-matched surface does not bend the chief ray,
+so its distortion term is 0 as well -/
+theorem index_matched_distortion_zero (P : Pre ℝ) (k : ℕ) (hm : nth P.n k = nth P.n (k - 1))
+    (hn : nth P.n k ≠ 0)
+    (refrC : nth P.n k * (nth P.ub k + nth P.yb k * nth P.C k)
+            = nth P.n (k - 1) * (nth P.ub (k - 1) + nth P.yb k * nth P.C k)) :
+    P.dcTerm k = 0 := by
+  rw [(index_matched_contributes_zero P k hm).2.2.2.2.1]
+  rw [← hm] at refrC
+  have h : nth P.ub k = nth P.ub (k - 1) := by
+    have := mul_left_cancel₀ hn refrC
+    linarith
+  rw [h]; ring
+
+/-! ### F-C08-2: the tree's mirror terms against the classical ones -/
+
+/-- **code_mirror_terms_vanish** (F-C08-2, the code side): in the tree's `_precalculations`
+(`optic.n()` unsigned) a reflecting surface of a chained system has `_n[k] = _n[k-1]`, hence its
+spherical, coma, astigmatism and Petzval terms are identically 0 -/
+theorem code_mirror_terms_vanish (S : PSys ℝ) (nF nC : List ℝ) (n0 : ℝ) (hc : C04.Chained n0 S.surfs)
+    (j : ℕ) (hj : j + 1 < S.surfs.length) (hr : (S.surfs.getD (j + 1) dS).refl = true) :
+    let P := precalcCode S nF nC
+    P.tscTerm (j + 1) = 0 ∧ P.ccTerm (j + 1) = 0 ∧ P.tacTerm (j + 1) = 0 ∧ P.tpcTerm (j + 1) = 0 := by
+  intro P
+  have hch := chained_getD S.surfs n0 j hc hj
+  have hm : nth P.n (j + 1) = nth P.n (j + 1 - 1) := by
+    show nth (nList S) (j + 1) = nth (nList S) (j + 1 - 1)
+    rw [Nat.add_sub_cancel, nth_nList S _ hj, nth_nList S j (by omega), hch.2 (Or.inr hr), hch.1]
+  have h := index_matched_contributes_zero P (j + 1) hm
+  exact ⟨h.1, h.2.1, h.2.2.1, h.2.2.2.1⟩
+
+/-- the classical contributions of a mirror (`n' = −n`, reflection `u' = −u − 2yc`) in closed form:
+`S_I = −2 n i² y² c`, `S_IV = 2 H² c / n` -/
+theorem mirror_classical (P : Pre ℝ) (k : ℕ) (h : SurfOK P k) (hm : nth P.n k = -nth P.n (k - 1)) :
+    SI (P.loc k) = -2 * nth P.n (k - 1) * (P.i k * P.i k) * (nth P.ya k * nth P.ya k) * nth P.C k ∧
+    SIV (P.loc k) = 2 * (P.inv * P.inv) * nth P.C k / nth P.n (k - 1) := by
+  obtain ⟨hn, hn', hR, -, -⟩ := h
+  simp only [SI, SIV, A, dUN, dInvN, Pre.loc, Pre.i]
+  num_real
+  rw [hm] at hR hn' ⊢
+  generalize nth P.n (k - 1) = n at *
+  generalize nth P.ua (k - 1) = u at *
+  generalize nth P.ua k = u' at *
+  generalize nth P.ya k = y at *
+  generalize nth P.C k = c at *
+  have hu : u' = -u - 2 * y * c := by
+    have : -(u' + y * c) = u + y * c := by
+      apply mul_left_cancel₀ hn; linarith
+    linarith
+  subst hu
+  constructor
+  · field_simp; ring
+  · field_simp; ring
+
+/-- **mirror_code_vs_spec** (F-C08-2 as an iff): `P` is what the tree stores at a mirror
+(`_n[k] = _n[k-1]`), `Q` the same surface with index sign reversal (`n' = −n`) satisfying the classical
+hypotheses.  The tree's spherical term agrees with the classical one exactly when the mirror is
+flat, or the marginal ray meets it on the axis, or at normal incidence; the Petzval term exactly
+when the mirror is flat. -/
+theorem mirror_code_vs_spec (P Q : Pre ℝ) (k : ℕ) (hP : nth P.n k = nth P.n (k - 1))
+    (G : SysOK Q) (h : SurfOK Q k) (hm : nth Q.n k = -nth Q.n (k - 1)) :
+    (P.tscTerm k = Q.tscTerm k ↔ Q.i k = 0 ∨ nth Q.ya k = 0 ∨ nth Q.C k = 0) ∧
+    (P.tpcTerm k = Q.tpcTerm k ↔ nth Q.C k = 0) := by
+  have hz := index_matched_contributes_zero P k hP
+  have h1 := tsc_eq_classical Q k G h
+  have h4 := tpc_eq_classical Q k G.hnL G.huL h.hn h.hn'
+  obtain ⟨m1, m4⟩ := mirror_classical Q k h hm
+  have hd : -2 * Q.nL * Q.uL ≠ 0 := mul_ne_zero (mul_ne_zero (by norm_num) G.hnL) G.huL
+  have hn := h.hn
+  have hH := G.hH
+  rw [hz.1, hz.2.2.2.1]
+  constructor
+  · constructor
+    · intro e
+      rw [← e, mul_zero, m1] at h1
+      have : nth Q.n (k - 1) * (Q.i k * Q.i k) * (nth Q.ya k * nth Q.ya k) * nth Q.C k = 0 := by linarith
+      simp only [mul_eq_zero, or_self] at this
+      tauto
+    · intro e
+      have : SI (Q.loc k) = 0 := by
+        rw [m1]; rcases e with e | e | e <;> rw [e] <;> ring
+      rw [this, neg_zero] at h1
+      exact ((mul_eq_zero.1 h1).resolve_left hd).symm
+  · constructor
+    · intro e
+      rw [← e, mul_zero, m4] at h4
+      have h5 : 2 * (Q.inv * Q.inv) * nth Q.C k / nth Q.n (k - 1) = 0 := by linarith
+      rw [div_eq_zero_iff] at h5
+      rcases h5 with h5 | h5
+      · simp only [mul_eq_zero, or_self] at h5
+        rcases h5 with (h5 | h5) | h5
+        · norm_num at h5
+        · exact absurd h5 hH
+        · exact h5
+      · exact absurd h5 hn
+    · intro e
+      have : SIV (Q.loc k) = 0 := by rw [m4, e]; ring
+      rw [this, neg_zero] at h4
+      exact ((mul_eq_zero.1 h4).resolve_left hd).symm
+
+
+/-! ### F-C08-3: exactly when the division by the Lagrange invariant loses the spherical term -/
+
+/-- the spherical term with the invariant cancelled by hand (`B i² h'` without forming `B` and `h'`):
+the repair that was tried for F-C08-3 -/
+noncomputable def tscFree (P : Pre ℝ) (k : ℕ) : ℝ :=
+  nth P.n (k - 1) * (nth P.n k - nth P.n (k - 1)) * nth P.ya k * (nth P.ua k + P.i k)
+    * (P.i k * P.i k) / (2 * nth P.n k * (P.nL * P.uL))
+
+/-- the invariant-free term is the classical `S_I` contribution whatever the Lagrange invariant is
+(no hypothesis on `P.inv`, no chief-ray data) -/
+theorem tscFree_eq_classical (P : Pre ℝ) (k : ℕ) (hnL : P.nL ≠ 0) (huL : P.uL ≠ 0)
+    (hn : nth P.n (k - 1) ≠ 0) (hn' : nth P.n k ≠ 0)
+    (hR : nth P.n k * (nth P.ua k + nth P.ya k * nth P.C k)
+            = nth P.n (k - 1) * (nth P.ua (k - 1) + nth P.ya k * nth P.C k)) :
+    -2 * P.nL * P.uL * tscFree P k = - SI (P.loc k) := by
+  simp only [tscFree, Pre.i, SI, A, dUN, Pre.loc]
+  num_real
+  generalize nth P.n (k - 1) = n at *
+  generalize nth P.n k = n' at *
+  generalize nth P.ua (k - 1) = u at *
+  generalize nth P.ua k = u' at *
+  generalize nth P.ya k = y at *
+  generalize nth P.C k = c at *
+  generalize P.nL = nL at *
+  generalize P.uL = uL at *
+  have := slope_after hn' hR
+  subst this
+  field_simp
+  ring
+
+/-- **tsc_code_vs_spec_iff** (F-C08-3 as an iff): the tree's spherical term equals the
+invariant-free (classical) one exactly when the Lagrange invariant is non-zero or the classical
+term itself vanishes, and the latter happens exactly when `n = 0`, the surface is index-matched,
+the marginal ray meets the surface on the axis, `u' + i = 0`, or the incidence is normal.  So for
+an axial-only field list (`H = 0`) every surface that classically contributes is reported as 0. -/
+theorem tsc_code_vs_spec_iff (P : Pre ℝ) (k : ℕ) (hnL : P.nL ≠ 0) (huL : P.uL ≠ 0) (hn' : nth P.n k ≠ 0) :
+    (P.tscTerm k = tscFree P k ↔ P.inv ≠ 0 ∨ tscFree P k = 0) ∧
+    (tscFree P k = 0 ↔ nth P.n (k - 1) = 0 ∨ nth P.n k = nth P.n (k - 1) ∨ nth P.ya k = 0 ∨
+      nth P.ua k + P.i k = 0 ∨ P.i k = 0) := by
+  constructor
+  · by_cases hH : P.inv = 0
+    · rw [(terms_vanish_when_invariant_zero P k hH).1]
+      constructor
+      · intro e; exact Or.inr e.symm
+      · rintro (e | e)
+        · exact absurd hH e
+        · exact e.symm
+    · constructor
+      · intro _; exact Or.inl hH
+      · intro _; exact tsc_indep P k hn' hH
+  · have hd : 2 * nth P.n k * (P.nL * P.uL) ≠ 0 :=
+      mul_ne_zero (mul_ne_zero two_ne_zero hn') (mul_ne_zero hnL huL)
+    unfold tscFree
+    rw [div_eq_zero_iff]
+    simp only [hd, or_false, mul_eq_zero, or_self, sub_eq_zero, or_assoc]
+
+example : ∃ P : Pre ℝ, P.inv = 0 ∧ P.nL ≠ 0 ∧ P.uL ≠ 0 ∧ nth P.n 1 ≠ 0 ∧ tscFree P 1 ≠ 0 ∧ P.tscTerm 1 = 0 := by
+  refine ⟨⟨0, [1, 2, 2], 3, [0, 1, 0], [1, 1, 1], [0, -1/2, -1/2], [0, 0, 0], [0, 0, 0], []⟩, rfl, ?_, ?_, ?_, ?_, ?_⟩
+  · simp [Pre.nL, last]
+  · simp [Pre.uL, last]
+  · simp [nth]
+  · simp [tscFree, Pre.i, Pre.nL, Pre.uL, last, nth]; norm_num
+  · exact (terms_vanish_when_invariant_zero _ 1 rfl).1
+
+/-! ### immersed image space: the Seidel contributions do not see `n'_last u'_last` -/
+
+/-- **seidel_contrib_free_of_image_space**: `h' = H/(n'u')` is the only place where the image-space
+index and the final marginal slope enter a Seidel term, and the factor `−2 n'u'` of `_sum_seidels`
+removes it: each surface's contribution to `S_I … S_V` is a function of the Lagrange invariant and
+the local data alone (an immersed image space changes the transverse terms by `1/n'`, not the sums). -/
+theorem seidel_contrib_free_of_image_space (P : Pre ℝ) (k : ℕ) (hnL : P.nL ≠ 0) (huL : P.uL ≠ 0) :
+    -2 * P.nL * P.uL * P.tscTerm k = -2 * P.inv * (P.B k * (P.i k * P.i k)) ∧
+    -2 * P.nL * P.uL * P.ccTerm k = -2 * P.inv * (P.B k * P.i k * P.ip k) ∧
+    -2 * P.nL * P.uL * P.tacTerm k = -2 * P.inv * (P.B k * (P.ip k * P.ip k)) ∧
+    -2 * P.nL * P.uL * P.tpcTerm k
+      = -(P.inv * P.inv) * nth P.C k * (nth P.n k - nth P.n (k - 1)) / (nth P.n k * nth P.n (k - 1)) ∧
+    -2 * P.nL * P.uL * P.dcTerm k
+      = -2 * P.inv * (P.Bp k * P.i k * P.ip k
+          + 1 / 2 * (nth P.ub k * nth P.ub k - nth P.ub (k - 1) * nth P.ub (k - 1))) := by
+  simp only [Pre.tscTerm, Pre.ccTerm, Pre.tacTerm, Pre.tpcTerm, Pre.dcTerm, Pre.hp, Model.sq, half_eq]
+  num_real
+  generalize P.B k = B
+  generalize P.Bp k = Bp
+  refine ⟨?_, ?_, ?_, ?_, ?_⟩ <;> field_simp
+
+/-- consequence for the sums: two precalculations that differ only in the image-space
+normalisation (`n'_last`, `u'_last` — e.g. the same lens with another image-space medium behind
+the last surface `N-2`… as long as the per-surface data agree) have the same `S_I`. -/
+theorem seidel_SI_free_of_image_space (P : Pre ℝ) (hnL : P.nL ≠ 0) (huL : P.uL ≠ 0) :
+    nth P.seidels 0 = (P.arr fun k => -2 * P.inv * (P.B k * (P.i k * P.i k))).sum := by
+  simp only [Pre.seidels, Pre.sumSeidels, nth, List.getD_cons_zero, seidelOf_eq, Pre.TSC]
+  exact sum_arr P _ _ _ fun k _ _ => (seidel_contrib_free_of_image_space P k hnL huL).1
+
+example : ∃ P : Pre ℝ, P.nL ≠ 0 ∧ P.uL ≠ 0 :=
+  ⟨⟨1, [1, 2, 2], 3, [0, 1, 0], [1, 1, 1], [0, -1/2, -1/2], [0, 0, 0], [0, 0, 0], []⟩,
+    by simp [Pre.nL, last], by simp [Pre.uL, last]⟩
+
+
+/-! ### dependence on aperture and field (Lagrange invariant) -/
+
+/-- the stored arrays after scaling the marginal ray by `a` (aperture) and the chief ray by `f`
+(field); the Lagrange invariant, bilinear in the two rays, scales by `a f` -/
+noncomputable def scaled (P : Pre ℝ) (a f : ℝ) : Pre ℝ :=
+  { P with inv := a * f * P.inv, ya := P.ya.map fun x => a * x, ua := P.ua.map fun x => a * x,
+           yb := P.yb.map fun x => f * x, ub := P.ub.map fun x => f * x }
+
+/-- **aperture_field_scaling**: the third-order terms of the model have the classical aperture
+and field dependence: spherical ∝ a³, coma ∝ a²f, astigmatism and Petzval ∝ a f², distortion ∝ f³
+(`a`: scale of the marginal ray, `f`: scale of the chief ray, hence `H ∝ a f`); the colour terms
+are first order: axial ∝ a, lateral ∝ f. -/
+theorem aperture_field_scaling (P : Pre ℝ) (a f : ℝ) (k : ℕ) (ha : a ≠ 0) (hf : f ≠ 0)
+    (hH : P.inv ≠ 0) (hnL : P.nL ≠ 0) (huL : P.uL ≠ 0) (hn' : nth P.n k ≠ 0) :
+    (scaled P a f).tscTerm k = a ^ 3 * P.tscTerm k ∧
+    (scaled P a f).ccTerm k = a ^ 2 * f * P.ccTerm k ∧
+    (scaled P a f).tacTerm k = a * f ^ 2 * P.tacTerm k ∧
+    (scaled P a f).tpcTerm k = a * f ^ 2 * P.tpcTerm k ∧
+    (scaled P a f).dcTerm k = f ^ 3 * P.dcTerm k ∧
+    (scaled P a f).tachcTerm_spec k = a * P.tachcTerm_spec k ∧
+    (scaled P a f).tchcTerm_spec k = f * P.tchcTerm_spec k := by
+  have hH' : (scaled P a f).inv ≠ 0 := mul_ne_zero (mul_ne_zero ha hf) hH
+  have hnk : nth (scaled P a f).n k ≠ 0 := hn'
+  have e1 : (scaled P a f).uL = a * P.uL := last_map_mul a P.ua
+  have e2 : (scaled P a f).nL = P.nL := rfl
+  have ei : (scaled P a f).i k = a * P.i k := by
+    simp only [Pre.i, scaled, nth_map_mul]; num_real; ring
+  have eip : (scaled P a f).ip k = f * P.ip k := by
+    simp only [Pre.ip, scaled, nth_map_mul]; num_real; ring
+  simp only [Pre.tscTerm, Pre.ccTerm, Pre.tacTerm, Pre.tpcTerm, Pre.dcTerm, Pre.tachcTerm_spec,
+    Pre.tchcTerm_spec, Pre.dnFac, B_eq _ k hnk hH', Bp_eq _ k hnk hH', B_eq P k hn' hH, Bp_eq P k hn' hH,
+    Pre.hp, Model.sq, half_eq, e1, e2, ei, eip]
+  simp only [scaled, nth_map_mul]
+  num_real
+  generalize nth P.n (k - 1) = n at *
+  generalize nth P.n k = n' at *
+  generalize nth P.ua k = u' at *
+  generalize nth P.ub (k - 1) = ub at *
+  generalize nth P.ub k = ub' at *
+  generalize nth P.ya k = y at *
+  generalize nth P.yb k = yb at *
+  generalize nth P.C k = c at *
+  generalize P.i k = i at *
+  generalize P.ip k = ib at *
+  generalize P.nL = nL at *
+  generalize P.uL = uL at *
+  generalize P.inv = H at *
+  refine ⟨?_, ?_, ?_, ?_, ?_, ?_, ?_⟩ <;> field_simp
+
+example : ∃ (P : Pre ℝ) (a f : ℝ), a ≠ 0 ∧ f ≠ 0 ∧ P.inv ≠ 0 ∧ P.nL ≠ 0 ∧ P.uL ≠ 0 ∧ nth P.n 1 ≠ 0 :=
+  ⟨⟨1, [1, 2, 2], 3, [0, 1, 0], [1, 1, 1], [0, -1/2, -1/2], [0, 0, 0], [0, 0, 0], []⟩, 2, 3,
+    by norm_num, by norm_num, by norm_num, by simp [Pre.nL, last], by simp [Pre.uL, last], by simp [nth]⟩
+
+/-! ### sign conventions behind a mirror -/
+
+/-- **refracting_surface_behind_mirror**: a refracting surface `k` in the space behind an odd number
+of mirrors.  `Q` carries the signed indices (`n, n', n'_last` and the dispersions reversed), `P` is
+what the tree stores (unsigned); rays, curvatures and the Lagrange invariant are the same.  The
+spherical, coma, astigmatism, Petzval and both colour terms of the tree *are* the classical ones —
+the two sign reversals (in `B` and in `h'`) cancel — but the distortion term is not: the tree's
+`½Δ(ū²)` enters with the wrong orientation, and the two agree exactly when `h'·Δ(ū²) = 0`. -/
+theorem refracting_surface_behind_mirror (P Q : Pre ℝ) (k : ℕ)
+    (hC : Q.C = P.C) (hya : Q.ya = P.ya) (hua : Q.ua = P.ua) (hyb : Q.yb = P.yb) (hub : Q.ub = P.ub)
+    (hI : Q.inv = P.inv) (h0 : nth Q.n (k - 1) = -nth P.n (k - 1)) (h1 : nth Q.n k = -nth P.n k)
+    (hL : Q.nL = -P.nL) (d0 : nth Q.dn (k - 1) = -nth P.dn (k - 1)) (d1 : nth Q.dn k = -nth P.dn k)
+    (hH : P.inv ≠ 0) (hn' : nth P.n k ≠ 0) :
+    Q.tscTerm k = P.tscTerm k ∧ Q.ccTerm k = P.ccTerm k ∧ Q.tacTerm k = P.tacTerm k ∧
+    Q.tpcTerm k = P.tpcTerm k ∧
+    Q.tachcTerm_spec k = P.tachcTerm_spec k ∧ Q.tchcTerm_spec k = P.tchcTerm_spec k ∧
+    Q.dcTerm k = P.dcTerm k - P.hp * (nth P.ub k * nth P.ub k - nth P.ub (k - 1) * nth P.ub (k - 1)) ∧
+    (Q.dcTerm k = P.dcTerm k ↔
+      P.hp * (nth P.ub k * nth P.ub k - nth P.ub (k - 1) * nth P.ub (k - 1)) = 0) := by
+  have hHq : Q.inv ≠ 0 := hI ▸ hH
+  have hnq : nth Q.n k ≠ 0 := by rw [h1]; exact neg_ne_zero.2 hn'
+  have hu : Q.uL = P.uL := by unfold Pre.uL; rw [hua]
+  have ei : Q.i k = P.i k := by unfold Pre.i; rw [hC, hya, hua]
+  have eip : Q.ip k = P.ip k := by unfold Pre.ip; rw [hC, hyb, hub]
+  have hdc : Q.dcTerm k = P.dcTerm k
+      - P.hp * (nth P.ub k * nth P.ub k - nth P.ub (k - 1) * nth P.ub (k - 1)) := by
+    simp only [Pre.dcTerm, Bp_eq Q k hnq hHq, Bp_eq P k hn' hH, Pre.hp, Model.sq, half_eq, ei, eip, hu, hL, hI,
+      h0, h1, hyb, hub]
+    num_real
+    field_simp
+    ring
+  refine ⟨?_, ?_, ?_, ?_, ?_, ?_, hdc, ?_⟩
+  · simp only [Pre.tscTerm, B_eq Q k hnq hHq, B_eq P k hn' hH, Pre.hp, Model.sq, ei, hu, hL, hI, h0, h1, hya, hua]
+    num_real; field_simp; ring
+  · simp only [Pre.ccTerm, B_eq Q k hnq hHq, B_eq P k hn' hH, Pre.hp, ei, eip, hu, hL, hI, h0, h1, hya, hua]
+    num_real; field_simp; ring
+  · simp only [Pre.tacTerm, B_eq Q k hnq hHq, B_eq P k hn' hH, Pre.hp, Model.sq, ei, eip, hu, hL, hI, h0, h1, hya, hua]
+    num_real; field_simp; ring
+  · simp only [Pre.tpcTerm, Pre.hp, hu, hL, hI, h0, h1, hC]
+    num_real; field_simp; ring
+  · simp only [Pre.tachcTerm_spec, Pre.dnFac, ei, hu, hL, h0, h1, d0, d1, hya]
+    num_real; field_simp; ring
+  · simp only [Pre.tchcTerm_spec, Pre.dnFac, eip, hu, hL, h0, h1, d0, d1, hya]
+    num_real; field_simp; ring
+  · rw [hdc]; constructor <;> intro h <;> linarith
+
+
+/-! ### edit, then re-evaluate: the aberrations are a function of the current prescription -/
+
+/-- `optic.aberrations.third_order()` on the current prescription (`nF`, `nC`: `optic.n(0.4861)`,
+`optic.n(0.6563)` of the current lens) -/
+noncomputable def aberrOf (R : Presc ℝ) (nF nC : List ℝ) (spec : Bool) : ThirdOrder ℝ :=
+  (precalcCode (toPSys R) nF nC).thirdOrder spec
+
+/-- **result_independent_of_history**: two lenses reached by any two edit histories (from any two
+starting prescriptions) that present the same surfaces, aperture and field to the paraxial tracer
+return the same 13-tuple and the same Seidel sums: the model of `Aberrations` keeps no state
+between calls (`_precalculations` is re-run by every accessor). -/
+theorem result_independent_of_history (R₁ R₂ : Presc ℝ) (ops₁ ops₂ : List (Op ℝ)) (nF nC : List ℝ) (spec : Bool)
+    (h : toPSys (runOps R₁ ops₁) = toPSys (runOps R₂ ops₂)) :
+    aberrOf (runOps R₁ ops₁) nF nC spec = aberrOf (runOps R₂ ops₂) nF nC spec ∧
+    (precalcCode (toPSys (runOps R₁ ops₁)) nF nC).seidels = (precalcCode (toPSys (runOps R₂ ops₂)) nF nC).seidels := by
+  unfold aberrOf; rw [h]; exact ⟨rfl, rfl⟩
+
+/-- **aberrations_ignore_unread_edits**: `set_conic`, the tilt/x-decentre setters, `set_asphere_coeff` and
+`add_wavelength` change nothing the third-order code reads (it sees radii, vertex positions, y-decentres, indices,
+mirror and stop flags only): the result after such an edit is the result before it.  In particular the
+model — like the tree — returns the *spherical-surface* Seidel terms for a conic surface: the conic
+contribution to `S_I` is not part of `Aberrations` (the harness restricts the classical comparison
+to conic-free lenses for this reason). -/
+theorem aberrations_ignore_unread_edits (R : Presc ℝ) (v : ℝ) (k i : ℕ) (p : Bool) (nF nC : List ℝ) (spec : Bool) :
+    aberrOf (setConic R v k) nF nC spec = aberrOf R nF nC spec ∧
+    aberrOf (setCoeff R v k i) nF nC spec = aberrOf R nF nC spec ∧
+    aberrOf { R with surfs := modifyAt R.surfs k fun s => { s with rx := v } } nF nC spec = aberrOf R nF nC spec ∧
+    aberrOf { R with surfs := modifyAt R.surfs k fun s => { s with ry := v } } nF nC spec = aberrOf R nF nC spec ∧
+    aberrOf { R with surfs := modifyAt R.surfs k fun s => { s with dx := v } } nF nC spec = aberrOf R nF nC spec ∧
+    aberrOf (addWave R v p) nF nC spec = aberrOf R nF nC spec := by
+  have key : ∀ f : SRec ℝ → SRec ℝ,
+      (∀ s, (f s).kind = s.kind ∧ (f s).dy = s.dy ∧ (f s).z = s.z ∧ (f s).radius = s.radius ∧
+        (f s).mPre = s.mPre ∧ (f s).mPost = s.mPost ∧ (f s).refl = s.refl ∧ (f s).stop = s.stop) →
+      toPSys { R with surfs := modifyAt R.surfs k f } = toPSys R := by
+    intro f hf
+    unfold toPSys
+    simp only [matN]
+    rw [map_modifyAt _ f R.surfs k]
+    intro s
+    obtain ⟨a1, a2, a3, a4, a5, a6, a7, a8⟩ := hf s
+    rw [a1, a2, a3, a4, a5, a6, a7, a8]
+  have cg : ∀ S S' : PSys ℝ, S = S' → (precalcCode S nF nC).thirdOrder spec = (precalcCode S' nF nC).thirdOrder spec :=
+    fun _ _ h => by rw [h]
+  unfold aberrOf
+  refine ⟨?_, ?_, ?_, ?_, ?_, ?_⟩
+  · exact cg _ _ (key (fun s => { s with conic := v }) fun s => ⟨rfl, rfl, rfl, rfl, rfl, rfl, rfl, rfl⟩)
+  · exact cg _ _ (key (fun s => { s with coeffs := modifyAt s.coeffs i fun _ => v })
+      fun s => ⟨rfl, rfl, rfl, rfl, rfl, rfl, rfl, rfl⟩)
+  · exact cg _ _ (key (fun s => { s with rx := v }) fun s => ⟨rfl, rfl, rfl, rfl, rfl, rfl, rfl, rfl⟩)
+  · exact cg _ _ (key (fun s => { s with ry := v }) fun s => ⟨rfl, rfl, rfl, rfl, rfl, rfl, rfl, rfl⟩)
+  · exact cg _ _ (key (fun s => { s with dx := v }) fun s => ⟨rfl, rfl, rfl, rfl, rfl, rfl, rfl, rfl⟩)
+  · rfl
+
+/-- **last_radius_edit_wins**: setting a radius twice is setting it once to the last value (also
+when the surface was a plane, which the first call turns into a standard surface): no trace of the
+intermediate value is left in what `Aberrations` reads, nor anywhere else in the prescription. -/
+theorem last_radius_edit_wins (R : Presc ℝ) (v w : ℝ) (k : ℕ) (nF nC : List ℝ) (spec : Bool) :
+    setRadius (setRadius R v k) w k = setRadius R w k ∧
+    aberrOf (setRadius (setRadius R v k) w k) nF nC spec = aberrOf (setRadius R w k) nF nC spec := by
+  have h : setRadius (setRadius R v k) w k = setRadius R w k := by
+    unfold setRadius
+    simp only [modifyAt_modifyAt]
+    congr 1
+    congr 1
+    funext s
+    cases s.gk <;> simp
+  exact ⟨h, by rw [h]⟩
+
+/-- editing a radius and restoring it gives back the original prescription (non-plane surface, or
+any index outside the list), hence the original aberrations; a plane is excluded because `set_radius`
+turns it into a standard surface (the aberrations are still restored when the plane's stored radius,
+`inf`, is written back: see `last_radius_edit_wins`) -/
+theorem radius_edit_roundtrip (R : Presc ℝ) (v : ℝ) (k : ℕ) (nF nC : List ℝ) (spec : Bool)
+    (hk : ∀ s, R.surfs[k]? = some s → s.gk ≠ .plane) :
+    aberrOf (setRadius (setRadius R v k) ((R.surfs.map (·.radius)).getD k 0) k) nF nC spec = aberrOf R nF nC spec := by
+  rw [(last_radius_edit_wins R v _ k nF nC spec).1]
+  have : setRadius R ((R.surfs.map (·.radius)).getD k 0) k = R := by
+    unfold setRadius
+    generalize hr : (R.surfs.map (·.radius)).getD k 0 = r
+    rw [modifyAt_fix]
+    intro s hs
+    have hne := hk s hs
+    have : r = s.radius := by
+      rw [← hr]; simp [List.getD_eq_getElem?_getD, hs]
+    subst this
+    clear hr hs
+    rcases s with ⟨kind, gk, z, dx, dy, rx, ry, radius, conic, coeffs, mPre, mPost, stop, refl⟩
+    cases gk <;> simp_all
+  rw [this]
+
+example : ∃ (R : Presc ℝ) (k : ℕ), (∀ s, R.surfs[k]? = some s → s.gk ≠ .plane) ∧ k < R.surfs.length :=
+  ⟨{ surfs := [⟨.object, .plane, 0, 0, 0, 0, 0, 0, 0, [], 0, 0, false, false⟩,
+               ⟨.standard, .standard, 0, 0, 0, 0, 0, 50, 0, [], 0, 1, true, false⟩],
+     lastThickness := 0, apValue := 10, maxYField := 1 }, 1,
+   by intro s hs; simp at hs; subst hs; simp, by simp⟩
+
+
+/-- F-C08-1, the case named in the finding: for a finite object the marginal ray leaves the axial
+object point (`_ya[0] = 0`), so the tree's colour terms of the *first* surface are exactly 0 whatever
+its dispersion step — while the classical ones are `−y₁ i₁ …` with the height on the surface itself -/
+theorem colour_code_first_surface_zero (P : Pre ℝ) (h0 : nth P.ya 0 = 0) :
+    P.tachcTerm_code 1 = 0 ∧ P.tchcTerm_code 1 = 0 ∧
+    (P.nL ≠ 0 → P.uL ≠ 0 → (P.tachcTerm_spec 1 = 0 ↔ nth P.ya 1 * P.i 1 * P.dnFac 1 = 0)) := by
+  refine ⟨?_, ?_, ?_⟩
+  · simp only [Pre.tachcTerm_code, Nat.sub_self, h0]; num_real; simp
+  · simp only [Pre.tchcTerm_code, Nat.sub_self, h0]; num_real; simp
+  · intro hnL huL
+    have hd : P.nL * P.uL ≠ 0 := mul_ne_zero hnL huL
+    simp only [Pre.tachcTerm_spec]; num_real
+    rw [div_mul_eq_mul_div, div_eq_zero_iff]
+    simp only [hd, or_false, neg_mul, neg_eq_zero]
+
+example : ∃ P : Pre ℝ, nth P.ya 0 = 0 ∧ P.nL ≠ 0 ∧ P.uL ≠ 0 ∧ P.tachcTerm_spec 1 ≠ 0 := by
+  refine ⟨⟨1, [1, 2, 2], 3, [0, 1, 0], [0, 1, 1], [1/10, -1/2, -1/2], [0, 0, 0], [0, 0, 0], [0, 1/100, 0]⟩,
+    by simp [nth], by simp [Pre.nL, last], by simp [Pre.uL, last], ?_⟩
+  simp [Pre.tachcTerm_spec, Pre.i, Pre.dnFac, Pre.nL, Pre.uL, last, nth]
+  num_real
+  norm_num
+
+/-- **signed_vs_unsigned_index**: the index array of the signed precalculation and `optic.n()` as
+the tree reads it differ by a sign only, at every surface: `n_spec[k] = ± n_code[k]`; so the two
+precalculations can differ in orientation, never in magnitude of an index (mirrors, any number). -/
+theorem signed_vs_unsigned_index (S : PSys ℝ) (nF nC : List ℝ) (k : ℕ) (hk : k < S.surfs.length) :
+    nth (precalcSpec S nF nC).n k = nth (precalcCode S nF nC).n k ∨
+    nth (precalcSpec S nF nC).n k = -nth (precalcCode S nF nC).n k := by
+  show nth (mulLists (sigmas 1 S.surfs) (nList S)) k = nth (nList S) k ∨
+    nth (mulLists (sigmas 1 S.surfs) (nList S)) k = -nth (nList S) k
+  rw [show nList S = S.surfs.map (·.n2) from rfl, signedN_getD S.surfs 1 k hk]
+  have : nth (S.surfs.map (·.n2)) k = (S.surfs.getD k dS).n2 := by
+    simp [nth, List.getD_eq_getElem?_getD, hk]
+  rw [this]
+  rcases sigmas_pm S.surfs 1 k (Or.inl rfl) hk with h | h <;> rw [h]
+  · left; ring
+  · right; ring
+
+example : (0 : ℕ) < (single 1 (3/2) 50 5 150 1).surfs.length := by simp [single]
+
+/-- non-vacuity of `refracting_surface_behind_mirror` -/
+example : ∃ (P Q : Pre ℝ) (k : ℕ), Q.C = P.C ∧ Q.ya = P.ya ∧ Q.ua = P.ua ∧ Q.yb = P.yb ∧ Q.ub = P.ub ∧
+    Q.inv = P.inv ∧ nth Q.n (k - 1) = -nth P.n (k - 1) ∧ nth Q.n k = -nth P.n k ∧ Q.nL = -P.nL ∧
+    nth Q.dn (k - 1) = -nth P.dn (k - 1) ∧ nth Q.dn k = -nth P.dn k ∧ P.inv ≠ 0 ∧ nth P.n k ≠ 0 :=
+  ⟨⟨1, [1, 2, 2], 3, [0, 1, 0], [1, 1, 1], [0, -1/2, -1/2], [0, 0, 0], [1/10, 1/20, 1/20], [0, 1/100, 1/100]⟩,
+   ⟨1, [-1, -2, -2], 3, [0, 1, 0], [1, 1, 1], [0, -1/2, -1/2], [0, 0, 0], [1/10, 1/20, 1/20], [0, -(1/100), -(1/100)]⟩,
+   1, rfl, rfl, rfl, rfl, rfl, rfl, by simp [nth], by simp [nth], by simp [Pre.nL, last], by simp [nth],
+   by simp [nth], by simp, by simp [nth]⟩
+
+
+
+/-- **stop_shift_formulae**: moving the stop adds a multiple `ε` of the marginal ray to the chief ray
+(`ȳ* = ȳ + ε y`, `ū* = ū + ε u` at the surface, on both sides) and leaves the Lagrange invariant
+unchanged.  Stated on the stored arrays at surface `k`: the model's terms obey the classical stop-shift
+equations `S_II* = S_II + ε S_I`, `S_III* = S_III + 2ε S_II + ε² S_I`, with `S_I`, `S_IV` unchanged —
+for every `ε`, every surface, also when `H = 0`. -/
+theorem stop_shift_formulae (P Q : Pre ℝ) (k : ℕ) (ε : ℝ) (hn : Q.n = P.n) (hC : Q.C = P.C)
+    (hya : Q.ya = P.ya) (hua : Q.ua = P.ua) (hI : Q.inv = P.inv)
+    (hyb : nth Q.yb k = nth P.yb k + ε * nth P.ya k)
+    (hub : nth Q.ub (k - 1) = nth P.ub (k - 1) + ε * nth P.ua (k - 1)) :
+    Q.tscTerm k = P.tscTerm k ∧ Q.tpcTerm k = P.tpcTerm k ∧
+    Q.ccTerm k = P.ccTerm k + ε * P.tscTerm k ∧
+    Q.tacTerm k = P.tacTerm k + 2 * ε * P.ccTerm k + ε ^ 2 * P.tscTerm k := by
+  have hi : Q.i k = P.i k := by unfold Pre.i; rw [hC, hya, hua]
+  have hip : Q.ip k = P.ip k + ε * P.i k := by
+    unfold Pre.ip Pre.i; rw [hC, hyb, hub]; num_real; ring
+  have hB : Q.B k = P.B k := by
+    unfold Pre.B Pre.denom; rw [hi, hn, hya, hua, hI]
+  have hhp : Q.hp = P.hp := by unfold Pre.hp Pre.nL Pre.uL; rw [hn, hua, hI]
+  refine ⟨?_, ?_, ?_, ?_⟩
+  · unfold Pre.tscTerm; rw [hB, hi, hhp]
+  · unfold Pre.tpcTerm; rw [hn, hC, hhp, hI]
+  · unfold Pre.ccTerm Pre.tscTerm; rw [hB, hi, hip, hhp]; simp only [Model.sq]; num_real; ring
+  · unfold Pre.tacTerm Pre.ccTerm Pre.tscTerm; rw [hB, hip, hhp]; simp only [Model.sq]; num_real; ring
+
+example : ∃ (P Q : Pre ℝ) (k : ℕ) (ε : ℝ), ε ≠ 0 ∧ Q.n = P.n ∧ Q.C = P.C ∧ Q.ya = P.ya ∧ Q.ua = P.ua ∧
+    Q.inv = P.inv ∧ nth Q.yb k = nth P.yb k + ε * nth P.ya k ∧
+    nth Q.ub (k - 1) = nth P.ub (k - 1) + ε * nth P.ua (k - 1) :=
+  ⟨⟨1, [1, 2, 2], 3, [0, 1, 0], [1, 1, 1], [0, -1/2, -1/2], [0, 0, 0], [1/10, 1/20, 1/20], []⟩,
+   ⟨1, [1, 2, 2], 3, [0, 1, 0], [1, 1, 1], [0, -1/2, -1/2], [0, 2, 0], [1/10, 1/20, 1/20], []⟩,
+   1, 2, by norm_num, rfl, rfl, rfl, rfl, rfl, by simp [nth], by simp [nth]⟩
 
 end C08
